@@ -236,6 +236,28 @@ def _c14(tier):
     ]
 
 
+def _c16(tier):
+    from . import model_machine
+    return [
+        dict(name='model-machine', leg=model_machine.leg_model, units=U(tier, 64, 400), opts=dict(checks=['C16'], data_faults=False, examples=U(tier, 400, 1000), steps=50)),
+        dict(name='in-situ-solver-histories', leg='swarm', units=U(tier, 400), opts=dict(per_unit=8, oracles=['insitu'], probes=('c16',), profile=P(
+            p_bounds=0.5, p_restarts=0.5, p_growing=0.0, p_regression=0.6, maxfun_choices=BUDGETS_BIG, p_buggify=0.9, deterministic=True))),
+    ]
+
+
+def _c17(tier):
+    from . import model_machine
+    return [
+        dict(name='model-machine-data-faults', leg=model_machine.leg_model, units=U(tier, 64, 400), opts=dict(checks=['C17'], data_faults=True, examples=U(tier, 400, 1000), steps=50)),
+        dict(name='model-machine-clean-data', leg=model_machine.leg_model, units=U(tier, 32, 200), opts=dict(checks=['C17'], data_faults=False, examples=U(tier, 400, 1000), steps=50)),
+    ]
+
+
+def _model_reproduce(rec):
+    from . import model_machine
+    return model_machine.reproduce(rec)
+
+
 def _census(tier):
     allo = ['C01', 'C02', 'C03', 'C04', 'C07', 'C08', 'C10', 'C11', 'C18', 'C19', 'C20']
     return [
@@ -261,6 +283,10 @@ CHECKS = {
     'C15': dict(legs=_c15, level='exploration', rule='in-situ assertion of the alternating-projection routine\'s own contract on every call made from dfols.model / solver / controller / trust_region in convex and regularised worlds (p = user sets + box (+ trust-region ball)); reference run to tol 1e-30 for a deterministic 1-in-20 sample of calls with tol <= 1e-10; distinct = distinct path signatures', assumptions=COMMON_ASSUME + ['class-B property: only calls made by simulated histories are asserted; optimality clause only for tol <= 1e-10']),
     'C10': dict(legs=_c10, level='exploration', rule='cut-point enumeration + swarm + faulted legs with buggified tolerances/slow/auto-detect settings; history oracle coupling (flag,msg) to recorded facts; distinct = distinct path signatures', assumptions=COMMON_ASSUME),
     'C11': dict(legs=_c11, level='exploration', rule='noise-free worlds without projections; independent least-squares fit to the recorded calls named by jacmin_eval_nums; cut-point enumeration + swarm (scaling in half of the bounded runs); distinct = distinct path signatures', assumptions=COMMON_ASSUME),
+    'C16': dict(legs=_c16, level='exploration', rule='(a) Hypothesis RuleBasedStateMachine over a real Model (n<=6, m<=6, 2..2n+1 points, spreads 1e-4..1, base points up to 1e3): replace / grow / append / swap / base shift / refit / factorise-then-mutate; identities checked after every operation with tolerance 1e3*eps*cond*scale; one unit = one Hypothesis seed; (b) the same identities after every fit performed inside simulated solves (solver-made histories, forced base shifts); distinct = distinct operation lists of length >= 3 / distinct path signatures',
+                assumptions=COMMON_ASSUME + ['identities are asserted only while all stored data are finite and cond(interpolation matrix) < 1e8', 'Hypothesis 6.168 generates and shrinks the operation list; the replay file is the recorded op list executed without Hypothesis']),
+    'C17': dict(legs=_c17, level='exploration', rule='Hypothesis RuleBasedStateMachine over a real Model against a shadow model (per slot: absolute point, list of samples, evaluation number; saved point), operations replace / resample / append / swap / base shift / save / final query, data from {random, exact ties, NaN, +inf, -inf} (data faults) and a clean-data configuration, with and without a regulariser; one unit = one Hypothesis seed; distinct = distinct operation lists of length >= 3',
+                assumptions=COMMON_ASSUME + ['no claim about exceptions once non-finite data are stored (only bookkeeping is claimed)', 'Hypothesis 6.168 generates and shrinks the operation list; the replay file is the recorded op list executed without Hypothesis']),
     'C18': dict(legs=_c18, level='exploration', rule='every run has diagnostics on; time-series invariants over soln.diagnostic_info cross-checked with the harness iteration events; swarm + cuts + faulted + growing legs', assumptions=COMMON_ASSUME),
     'C19': dict(legs=_c19, level='exploration', rule='sessions: the same non-randomised call W repeated under different np.random seeds, with the environment drawing from the shared global RNG between solver draws, after an unrelated call and after a call that raised; behaviour digests of all W runs must be bit-identical; caller-side snapshots of all arguments compared after every call of every leg (incl. faulted and raising runs, integer-dtype x0/bounds); distinct = distinct path signatures of the W runs',
                 assumptions=COMMON_ASSUME + ['"randomised option" is read from the code: random initial directions, any growing configuration, restarts.increase_npt, momentum extra steps; convex worlds whose coordinate set needs the random repair path are detected (extra qr_rank calls) and not compared']),
@@ -268,7 +294,7 @@ CHECKS = {
     'census': dict(legs=_census, level='exploration', rule='all oracles on a general swarm (development aid, not registered)', report_all=True, no_minimise=True, spot_check=False),
 }
 
-REPRODUCERS = {'session': _session_reproduce}
+REPRODUCERS = {'session': _session_reproduce, 'model': _model_reproduce}
 MINIMISERS = {'session': _session_minimise}
 
 _cache = {}
